@@ -3,6 +3,7 @@ import NutsModel.C02.Token
 import NutsModel.C02.History
 import NutsModel.C02.Jar
 import NutsModel.C02.Policy
+import NutsModel.C02.ReqObj
 import NutsModel.Facts.C02
 open Lean Nuts.Drv Nuts.C02 Nuts
 
@@ -58,6 +59,27 @@ structure St where
   cfg : Cfg := cfgOf Json.null
   w : World := {}
   sha : List (String × String) := []
+  /-- the request-object store (`authzRequestObjectStore`): one entry per OpenID4VP leg -/
+  ro : Store JarReq := []
+
+/-- `subjectManager.ListDIDs(subject)[0]` of the harness world -/
+def signerOf (subject : String) : String := "did:web:as.example:iam:" ++ subject
+
+/-- the request object of the leg an authorization request opened -/
+def roAfterAuthReq (st : St) (t : Nat) (subject clientId : String) : Res AuthReqOut → Store JarReq
+  | .ok o => nextFlowRO st.cfg signerOf st.ro t subject clientId o.owner o.nonce o.state
+  | _ => st.ro
+
+/-- the request object of the NEXT leg an accepted authorization response opened (`200 next=…`): tenant and client of the session -/
+def roAfterAuthResp (st : St) (wBefore : World) (t : Nat) (state : Option String) (ro : Store JarReq) : Res AuthOut → Store JarReq
+  | .ok (.next owner n) =>
+    match state with
+    | some s =>
+      match wBefore.states.get t s with
+      | some session => nextFlowRO st.cfg signerOf ro t session.ownSubject session.clientId owner n s
+      | none => ro
+    | none => ro
+  | _ => ro
 
 /-- over HTTP the OAuth2 error writer turns any other error into a bare `server_error` -/
 def overHTTP (http : Bool) (line : String) : String :=
@@ -171,7 +193,7 @@ def step (st : St) (j : Json) : St × List String :=
       | .ok o => s!"302 state={o.state} nonce={o.nonce} owner={o.owner}"
       | .err e => "err:" ++ e
       | .panic p => "panic:" ++ p
-    ({ st with w := w' }, [out])
+    ({ st with w := w', ro := roAfterAuthReq st t r.subject r.clientId res }, [out])
   | "authresp" =>
     let r : AuthResp :=
       { subject := jStr j "subject", state := optStr j "state", vpToken := jBool j "vp_token",
@@ -184,7 +206,7 @@ def step (st : St) (j : Json) : St × List String :=
       | .ok (.next owner n) => s!"200 next={owner} nonce={n}"
       | .err e => "err:" ++ e
       | .panic p => "panic:" ++ p
-    ({ st with w := w' }, [out])
+    ({ st with w := w', ro := roAfterAuthResp st st.w t r.state st.ro res }, [out])
   | "race" =>
     let r : AuthResp :=
       { subject := jStr j "subject", state := optStr j "state", vpToken := jBool j "vp_token",
@@ -194,7 +216,8 @@ def step (st : St) (j : Json) : St × List String :=
     -- the serial order is the order in which the threads take their (single, atomic) step on the nonce entry
     let firstIsA := match jNats j "schedule" with | 1 :: _ => false | _ => true
     let (w', oa, ob) := raceAuthorize st.cfg st.w t r firstIsA
-    ({ st with w := w' }, [s!"race A[{showAuthOut oa}] B[{showAuthOut ob}]"])
+    let ro1 := roAfterAuthResp st st.w t r.state st.ro oa
+    ({ st with w := w', ro := roAfterAuthResp st st.w t r.state ro1 ob }, [s!"race A[{showAuthOut oa}] B[{showAuthOut ob}]"])
   | "code" =>
     let r := parseCode j
     let (w', res) := match optStr j "grant_type" with
@@ -211,7 +234,8 @@ def step (st : St) (j : Json) : St × List String :=
       | .err e => "err:" ++ e
       | .panic p => "panic:" ++ p
     let cs := String.intercalate " " (calls.map showCall)
-    ({ st with w := w' }, ["calls=[" ++ cs ++ "] " ++ overHTTP (jBool j "http") out])
+    ({ st with w := w', ro := roAfterAuthReq st t r.subject query.clientId res },
+     ["calls=[" ++ cs ++ "] " ++ overHTTP (jBool j "http") out])
   | "introspect" =>
     let res := if jBool j "extended" then introspectExtended st.cfg st.w t (jStr j "token")
                else introspectPlain st.cfg st.w t (jStr j "token")
@@ -226,6 +250,17 @@ def step (st : St) (j : Json) : St × List String :=
       | "token" => present (st.w.tokens.get t k)
       | o => "bad-store:" ++ o
     (st, [out])
+  | "reqobj" =>
+    -- RequestJWTByGet / RequestJWTByPost: the claims handed to the signer (the members this model follows)
+    let (ro', res) := requestJWT st.cfg st.ro t (jStr j "method" == "post") (jStr j "id") (jStr j "subject")
+      (optStr j "wallet_issuer") (optStr j "wallet_nonce")
+    let out := match res with
+      | .ok claims =>
+        let keys := ["aud", "client_id", "iss", "nonce", "response_mode", "response_type", "state", "wallet_nonce"]
+        "ok " ++ String.intercalate " " (keys.map fun k => k ++ "=" ++ ((objGet claims k).getD "-"))
+      | .err e => "err:" ++ e
+      | .panic p => "panic:" ++ p
+    ({ st with ro := ro' }, [out])
   | "polload" =>
     -- policy/local.go: Configure on a generated directory, then PresentationDefinitions for the probe scopes
     let entries : List DirEntry := (jArr j "entries").map fun e =>
